@@ -60,6 +60,16 @@ CLAIMED = {
   text="Decides the ordering facts crash consistency rests on, for every path: in file/all modes the executor's driver and its revision writer both belong to the currently open transaction and commits happen only after Execute returned nil at the documented points; in every mode a statement is executed before its revision row is updated, the row is written before the next statement, and a row is never counted on a failed statement; the revision writer executes through the driver of the client it was created for and a TxClient's driver is opened on the transaction it commits. A crash skips deferred code, so the property reduces to this order of effects, which path rules decide at every program point rather than at sampled crash points.",
   note="Not decided: atomicity/durability of the engine at a crash (COMMIT all-or-nothing, implicit rollback of an open transaction), torn writes inside SQLite. No crash hooks are used (hook_needed of the property belongs to a dynamic technique). ",
   ref="DESIGN.md §3 C10"),
+ "C11": dict(
+  technique="static analysis: value-provenance rules (single source of truth, index provenance, checkpoint-filter provenance), field-read ownership of the completeness test, comparator-orientation lint, go/cfg gate rules",
+  text="The pending decision itself is value-level and NOT decided. Decided for every history: what apply, ExecuteN/ExecuteTo and status use IS the value returned by Executor.Pending (or a prefix), so they agree with that decision by construction; an index found by searching one slice is never used on another (the directory listing with and without checkpoint files are different index spaces); no raw directory listing reaches Pending's result without the checkpoint filter; completeness of the last revision is read from Applied and Total alone; binary-search comparators are oriented (element, target); the first-run gate consults CheckClean and honours allow-dirty/baseline; the checkpoint helpers take the last checkpoint. Level 'other', narrow: these are necessary conditions the documented semantics rest on, found by a provenance analysis; boundary mutants (<= vs <, idx++ dropped) are outside this technique.",
+  note="Not decided: the documented decision for each (directory, history, exec-order) combination; out-of-order window arithmetic; set-version. ",
+  ref="DESIGN.md §3 C11"),
+ "C16": dict(
+  technique="static analysis: who-may-read rule for Schema.Name over the CHA call graph of the planners + switch-shape rule of the qualifier-aware sinks + go/cfg scope-check-first rule + guard agreement in the CLI",
+  text="Decides for all change sets: outside a closed table of functions no code reachable from PlanChanges reads a schema's name; in the qualifier-aware sinks the requested qualifier is tested before the schema's own name; mysql/postgres never write table/view/schema names through the raw identifier writer; scratch planner states inherit the plan options (so reverse statements honour the qualifier too); plan() runs the scope check first whenever a qualifier is set; the CLI asks for the empty qualifier exactly for schema-bound URLs. One genuine defect in the scope check (D5) is a known finding.",
+  note="Not decided: token-level absence of the name in every statement (needs running the planners); whether RefTable's cross-schema reference under the empty qualifier is acceptable for multi-tenant use. ",
+  ref="DESIGN.md §3 C16"),
 }
 
 NA = {}
